@@ -346,7 +346,7 @@ def _pairs_work(units):
     from ..common import quiet
 
     out = {"cov": {}, "viol": [], "outcomes": [], "samples": [], "known": {}}
-    probes = [{"uid": u} for u in (1, "1", 7, "x", 2, 3, 4, 5, 6, 8, 9, 10)]
+    probes = [{"uid": u, "country": ("us", "zz", "ca")[j % 3], "us": ("zz", "us", "us")[j % 3], "n": j % 2} for j, u in enumerate((1, "1", 7, "x", 2, 3, 4, 5, 6, 8, 9, 10))]
     from .. import oracle
     from ..ref import parse as rp
 
@@ -434,6 +434,23 @@ def collision_pairs(res):
     for a, b in twins:
         units.append((f"twin:{a}|{b}", T.format(a), T.format(b)))
         units.append((f"twin:{b}|{a}", T.format(b), T.format(a)))
+    # the same WORDS as different tokens: a field reference vs. a string literal of the same spelling, a number vs. a string of
+    # its digits, keyword-looking literals (a change detector that compares token VALUES, or a token-insensitive normal form)
+    T2 = 'def exp {{ splitters: uid if country == {0} {{ return "a" weighted 3, "b" weighted 1 }} else {{ return "c" weighted 1 }} }}'
+    for a, b in [('"us"', "us"), ("us", '"us"'), ('"1"', "1"), ("n", '"n"'), ("'us'", "us"), ('("us", "ca")', "(us, \"ca\")"), ('"country"', "country")]:
+        units.append((f"token-twin:{a}|{b}", T2.format(a), T2.format(b)))
+    T3 = 'def exp {{ splitters: uid if country {0} {{ return "a" weighted 3, "b" weighted 1 }} else {{ return "c" weighted 1 }} }}'
+    for a, b in [('in ("us", "ca")', 'not in ("us", "ca")'), ('== "us" or n == 1', '== "us" and n == 1'), ('== "us"', '!= "us"'), ('not in ("us")', 'in ("us")')]:
+        units.append((f"token-twin:{a}|{b}", T3.format(a), T3.format(b)))
+        units.append((f"token-twin:{b}|{a}", T3.format(b), T3.format(a)))
+    # layout twins: equal after collapsing white space, different meaning (a line break ends a // comment; blanks in a literal are data)
+    L1 = 'def exp { splitters: uid return "a" weighted 3 // , "b" weighted 1\n , "z" weighted 1 }'
+    L2 = 'def exp { splitters: uid return "a" weighted 3 //\n , "b" weighted 1 , "z" weighted 1 }'
+    L3 = 'def exp { splitters: uid return "a" weighted 3 // , "b" weighted 1 , "z" weighted\n }'
+    L4 = 'def exp { splitters: uid return "a" weighted 3 // , "b" weighted 1 ,\n "z" weighted }'
+    for name, a, b in (("layout-twin:comment-break", L1, L2), ("layout-twin:comment-break-rev", L2, L1), ("layout-twin:valid-to-invalid", L3, L4), ("layout-twin:tabs", L1, L1.replace(" //", "\t//")),
+                       ("layout-twin:crlf", L1, L1.replace("\n", "\r\n")), ("layout-twin:literal-blanks", T.format('"wave 1"'), T.format('"wave  1"'))):
+        units.append((name, a, b))
     units = [u for u in units if impl_free_valid(u[1])]
     for w in pmap(_pairs_work, units, chunk=4, inline_ok=False):
         res.merge_worker(w)
